@@ -41,7 +41,7 @@ func c01DeclCfg(focus TypeSpec) *DeclCfg {
 		PNamespace: 50, PEnvNS: 0, PShortOnly: 20, PLongOnly: 25, NonASCII: false, PClash: 15,
 		PDefault: 15, PChoices: 10, POptional: 10, PHidden: 10, PHiddenGrp: 10, PHiddenCmd: 10, PBase: 25, PNoUnquote: 10,
 		PInitial: 40, PPlain: 50, PDefault2: 30, PNoFlag: 20, PProgAttr: 30, PPos: 35, PosMax: 3, PRest: 40, PExec: 25, PByTag: 50, PSubOptional: 30, PAliases: 40,
-		PInline: 25, PCmdTwin: 20, PPtrGroup: 10, PDesc: 50, PValueName: 20, ParserOpts: parserOptSubsets, NsDelims: []string{"", "", "-", "::", "_"},
+		PInline: 25, PNameless: 5, PCmdTwin: 20, PPtrGroup: 10, PDesc: 50, PValueName: 20, ParserOpts: parserOptSubsets, NsDelims: []string{"", "", "-", "::", "_"},
 		PosTypes:   []TypeSpec{{K: KString}, {K: KString}, {K: KInt}, {K: KFloat64}, {K: KDuration}, {K: KCelsius}, {K: KString, W: WMap, MapKey: KString}, {K: KOnOff}},
 		PNamedRest: 30, PPosSplit: 20, PPosLongTag: 10,
 	}
